@@ -1,8 +1,51 @@
 (* C04 - libavoid polyline: routes are true Euclidean shortest paths.
-   Only statements closed by `exact`; proofs live in Avoid/CertDijkstra.v and Avoid/RefRouter.v. *)
-From Adapt Require Import Num.Qaux Geom.GeomSpec Avoid.SegPolyModel Avoid.SegPoly.
-Local Open Scope Q_scope.
+   Only statements closed by `exact`; proofs live in Avoid/CertDijkstra.v, Avoid/RefRouter.v, Avoid/Blocking.v. *)
+From Adapt Require Import Num.Qaux Geom.GeomSpec Gen.Geometry Avoid.SegPolyModel Avoid.SegPoly
+     Avoid.CertDijkstraModel Avoid.CertDijkstra Avoid.RefRouterModel Avoid.RefRouter Avoid.Blocking.
+Local Open Scope Z_scope.
 
-Theorem C04_visible_exact P u v : seg_clear P u v = true <-> segment_avoids P u v.
-Proof. exact (seg_clear_spec P u v). Qed.
-Print Assumptions C04_visible_exact.
+(* certifying Dijkstra, any finite graph, any integer weights; the outcome Fail is excluded in each statement *)
+Theorem C04_dijkstra_sound N succs s t p c :
+  dijkstra N succs s t = Found p c -> walk succs s t c /\ check_path succs s t p c = true.
+Proof. exact (dijkstra_sound N succs s t p c). Qed.
+Print Assumptions C04_dijkstra_sound.
+
+Theorem C04_dijkstra_optimal N succs s t p c :
+  dijkstra N succs s t = Found p c -> forall c', walk succs s t c' -> c <= c'.
+Proof. exact (dijkstra_optimal N succs s t p c). Qed.
+Print Assumptions C04_dijkstra_optimal.
+
+Theorem C04_dijkstra_noroute N succs s t : dijkstra N succs s t = NoRoute -> forall c', ~ walk succs s t c'.
+Proof. exact (dijkstra_noroute N succs s t). Qed.
+Print Assumptions C04_dijkstra_noroute.
+
+(* penalty 0: the model route is a shortest path of the exact visibility graph *)
+Theorem C04_model_optimal shapes s d pts c :
+  route_plain shapes s d = Route pts c ->
+  polyline_len pts = c /\
+  forall q, vis_path shapes s d (0%nat :: q) -> last (0%nat :: q) 0%nat = 1%nat ->
+            c <= polyline_len (map (vpt (verts shapes s d)) (0%nat :: q)).
+Proof. exact (C04_model_optimal shapes s d pts c). Qed.
+Print Assumptions C04_model_optimal.
+
+(* penalty > 0: optimal within the taut class (libavoid's search space) *)
+Theorem C04_model_optimal_taut pen shapes s d pts c :
+  route_taut pen shapes s d = Route pts c ->
+  forall q, taut_seq shapes s d 0 (0%nat :: q) -> c <= taut_seq_cost pen shapes s d 0 (0%nat :: q).
+Proof. exact (C04_model_optimal_taut pen shapes s d pts c). Qed.
+Print Assumptions C04_model_optimal_taut.
+
+(* triangle inequality of the floor-sqrt lengths, and admissibility of the straight-line A* heuristic *)
+Theorem C04_lenZ_triangle p q r : lenZ p r <= lenZ p q + lenZ q r + 1.
+Proof. exact (lenZ_triangle p q r). Qed.
+Print Assumptions C04_lenZ_triangle.
+
+Theorem C04_euclid_heuristic_admissible (r : list pt) (a : pt) :
+  lenZ a (last (a :: r) a) <= polyline_len (a :: r) + Z.of_nat (length r).
+Proof. exact (euclid_heuristic_admissible r a). Qed.
+Print Assumptions C04_euclid_heuristic_admissible.
+
+(* the cone test of checkVis (cpp2v-generated) is the spec decider the reference router prunes with *)
+Theorem C04_inValidRegion_eq_spec ig a0 a1 a2 b : inValidRegion ig a0 a1 a2 b = spec_inValidRegion ig a0 a1 a2 b.
+Proof. exact (inValidRegion_eq_spec ig a0 a1 a2 b). Qed.
+Print Assumptions C04_inValidRegion_eq_spec.
